@@ -3,22 +3,86 @@
 use crate::util::*;
 use cipher::generic_array::GenericArray;
 use cipher::{BlockDecrypt, BlockEncrypt, NewBlockCipher};
+use std::panic::{catch_unwind, AssertUnwindSafe};
 use threefish_cipher::{Threefish1024, Threefish256, Threefish512};
 
-/// `use_new`: construct through `NewBlockCipher::new` (only for the zero tweak, which is what it means)
-fn enc_dec(size: usize, key: &[u8], t0: u64, t1: u64, block: &[u8], use_new: bool) -> (Vec<u8>, Vec<u8>) {
+/// What one case runs on the implementation: E(b), D(b), D(E(b)), E(D(b)) on ONE object (so four
+/// blocks pass through the same key schedule), `pos_dep` = a multi-block call returned different
+/// results for equal blocks at different positions.
+pub struct Ran {
+    e: Vec<u8>,
+    d: Vec<u8>,
+    de: Vec<u8>,
+    ed: Vec<u8>,
+    pos_dep: bool,
+}
+
+pub const CTORS: [&str; 3] = ["with_tweak", "NewBlockCipher::new", "NewBlockCipher::new_from_slice"];
+pub const ROUTES: [&str; 4] = ["encrypt_block/decrypt_block", "encrypt_blocks/decrypt_blocks (3-block slice)", "encrypt_par_blocks/decrypt_par_blocks", "E through a clone of the object, D through the original"];
+
+/// `ctor`: 0 = `with_tweak`, 1 = `NewBlockCipher::new`, 2 = `NewBlockCipher::new_from_slice` (1 and 2 only for
+/// the zero tweak, which is what they mean); `route`: which trait methods carry the blocks (see ROUTES).
+/// Every call into the implementation is inside `catch_unwind`: None = it panicked.
+#[allow(deprecated)]
+fn run_case(size: usize, key: &[u8], t0: u64, t1: u64, block: &[u8], ctor: u8, route: u8) -> Option<Ran> {
     macro_rules! go {
         ($t:ident) => {{
-            let c = if use_new && t0 == 0 && t1 == 0 {
-                <$t as NewBlockCipher>::new(GenericArray::from_slice(key))
-            } else {
-                $t::with_tweak(GenericArray::from_slice(key), t0, t1)
-            };
-            let mut e = GenericArray::clone_from_slice(block);
-            c.encrypt_block(&mut e);
-            let mut d = GenericArray::clone_from_slice(block);
-            c.decrypt_block(&mut d);
-            (e.to_vec(), d.to_vec())
+            catch_unwind(AssertUnwindSafe(|| {
+                let c = match ctor {
+                    1 if t0 == 0 && t1 == 0 => <$t as NewBlockCipher>::new(GenericArray::from_slice(key)),
+                    2 if t0 == 0 && t1 == 0 => <$t as NewBlockCipher>::new_from_slice(key).expect("key of the block size"),
+                    _ => $t::with_tweak(GenericArray::from_slice(key), t0, t1),
+                };
+                let mut pos_dep = false;
+                let other = GenericArray::clone_from_slice(key);
+                let mut enc = |c: &$t, b: &[u8]| -> Vec<u8> {
+                    let mut x = GenericArray::clone_from_slice(b);
+                    match route {
+                        1 => {
+                            let mut bs = [x.clone(), other.clone(), x.clone()];
+                            c.encrypt_blocks(&mut bs[..]);
+                            pos_dep |= bs[0] != bs[2];
+                            x = bs[0].clone();
+                        }
+                        2 => {
+                            let mut pb: cipher::ParBlocks<$t> = GenericArray::clone_from_slice(&[x.clone()]);
+                            c.encrypt_par_blocks(&mut pb);
+                            x = pb[0].clone();
+                        }
+                        3 => {
+                            let c2 = Clone::clone(c);
+                            c2.encrypt_block(&mut x);
+                        }
+                        _ => c.encrypt_block(&mut x),
+                    }
+                    x.to_vec()
+                };
+                let e = enc(&c, block);
+                let mut pos_dep_d = false;
+                let mut dec = |c: &$t, b: &[u8]| -> Vec<u8> {
+                    let mut x = GenericArray::clone_from_slice(b);
+                    match route {
+                        1 => {
+                            let mut bs = [x.clone(), other.clone(), x.clone()];
+                            c.decrypt_blocks(&mut bs[..]);
+                            pos_dep_d |= bs[0] != bs[2];
+                            x = bs[0].clone();
+                        }
+                        2 => {
+                            let mut pb: cipher::ParBlocks<$t> = GenericArray::clone_from_slice(&[x.clone()]);
+                            c.decrypt_par_blocks(&mut pb);
+                            x = pb[0].clone();
+                        }
+                        _ => c.decrypt_block(&mut x),
+                    }
+                    x.to_vec()
+                };
+                let d = dec(&c, block);
+                let de = dec(&c, &e);
+                let ed = enc(&c, &d);
+                Ran { e, d, de, ed, pos_dep: pos_dep || pos_dep_d }
+            }))
+            .ok()
         }};
     }
     match size {
@@ -115,6 +179,10 @@ pub fn run(a: &Args) {
     let mut by_size = [0usize; 3];
     let mut via_new = 0usize;
     let mut n_crafted = 0usize;
+    let mut n_parity = 0usize;
+    let mut panics = 0usize;
+    let mut by_route = [0usize; 4];
+    std::panic::set_hook(Box::new(|_| {}));
     let mut distinct = std::collections::HashSet::new();
     for i in 0..count {
         let size = [256usize, 512, 1024][i % 3];
@@ -149,14 +217,23 @@ pub fn run(a: &Args) {
                 }
                 v
             };
-            let key = gen(&mut rng);
+            let mut key = gen(&mut rng);
             let block = gen(&mut rng);
             let (t0, t1) = match rng.range(0, 5) {
-                0 | 1 => (0, 0), // these are built through NewBlockCipher::new
+                0 | 1 => (0, 0), // these are built through NewBlockCipher::new / new_from_slice
                 2 => { let t = rng.word64(); (t, t) }
                 3 => (u64::MAX, u64::MAX - rng.range(0, 1)),
                 _ => (rng.word64(), rng.word64()),
             };
+            // one case in six: the last key word is chosen so that the parity word k[N_w] = C240 ^ k[0] ^ ...
+            // is within 20 of 2^64: the subkey addition `k[N_w] + s` (s <= 18 / 20) then wraps
+            if rng.chance(1, 6) {
+                let parity = key.chunks(8).fold(C240, |a, c| a ^ u64::from_le_bytes([c[0], c[1], c[2], c[3], c[4], c[5], c[6], c[7]]));
+                let target = u64::MAX - rng.below(20);
+                let last = u64::from_le_bytes([key[n - 8], key[n - 7], key[n - 6], key[n - 5], key[n - 4], key[n - 3], key[n - 2], key[n - 1]]);
+                key[n - 8..].copy_from_slice(&(last ^ parity ^ target).to_le_bytes());
+                n_parity += 1;
+            }
             (key, block, t0, t1)
         };
         // every fourth case: the block is crafted so that the first MIX of encryption resp. the first inverse
@@ -173,25 +250,40 @@ pub fn run(a: &Args) {
             block
         };
         if !crafted.is_empty() { n_crafted += 1; }
-        let use_new = i >= 6 && t0 == 0 && t1 == 0;
-        if use_new { via_new += 1; }
-        let (e, d) = enc_dec(size, &key, t0, t1, &block, use_new);
-        // direct statement of the inverse property on the implementation
-        let (_, de) = enc_dec(size, &key, t0, t1, &e, use_new);
-        let (ed, _) = enc_dec(size, &key, t0, t1, &d, use_new);
-        if de != block || ed != block {
-            direct_fail.push(format!(
-                "{{\"size\":{},\"key\":{},\"t0\":{},\"t1\":{},\"block\":{},\"D(E(b))\":{},\"E(D(b))\":{}}}",
-                size, jstr(&hex(&key)), t0, t1, jstr(&hex(&block)), jstr(&hex(&de)), jstr(&hex(&ed))
-            ));
-        }
+        // constructor and the trait methods that carry the blocks rotate with the case index and the seed
+        let ctor: u8 = if i >= 6 && t0 == 0 && t1 == 0 { 1 + ((i / 3 + seed as usize) % 2) as u8 } else { 0 };
+        if ctor != 0 { via_new += 1; }
+        let route: u8 = if i < 6 { 0 } else { ((i / 3 + (seed as usize) / 2) % 4) as u8 };
+        by_route[route as usize] += 1;
+        let ran = run_case(size, &key, t0, t1, &block, ctor, route);
+        let (e, d) = match &ran {
+            Some(r) => {
+                // direct statement of the inverse property on the implementation
+                if r.de != block || r.ed != block || r.pos_dep {
+                    direct_fail.push(format!(
+                        "{{\"size\":{},\"ctor\":\"{}\",\"route\":\"{}\",\"key\":{},\"t0\":{},\"t1\":{},\"block\":{},\"D(E(b))\":{},\"E(D(b))\":{},\"equal_blocks_of_one_call_differ\":{}}}",
+                        size, CTORS[ctor as usize], ROUTES[route as usize], jstr(&hex(&key)), t0, t1, jstr(&hex(&block)), jstr(&hex(&r.de)), jstr(&hex(&r.ed)), r.pos_dep
+                    ));
+                }
+                (r.e.clone(), r.d.clone())
+            }
+            None => {
+                // a panic is an outcome with its input, not a harness crash
+                panics += 1;
+                direct_fail.push(format!(
+                    "{{\"outcome\":\"panic\",\"size\":{},\"no_unroll\":{},\"ctor\":\"{}\",\"route\":\"{}\",\"key\":{},\"t0\":{},\"t1\":{},\"block\":{}}}",
+                    size, nu, CTORS[ctor as usize], ROUTES[route as usize], jstr(&hex(&key)), t0, t1, jstr(&hex(&block))
+                ));
+                (Vec::new(), Vec::new())
+            }
+        };
         let nontrivial = block.iter().any(|&b| b != 0) || key.iter().any(|&b| b != 0);
         if nontrivial {
             distinct.insert((size, key.clone(), t0, t1, block.clone()));
         }
         let js = format!(
-            "{{\"size\":{},\"no_unroll\":{},\"ctor\":\"{}\",\"crafted\":\"{}\",\"key\":{},\"t0\":{},\"t1\":{},\"block\":{},\"enc\":{},\"dec\":{}}}",
-            size, nu, if use_new { "NewBlockCipher::new" } else { "with_tweak" }, crafted, jstr(&hex(&key)), t0, t1, jstr(&hex(&block)), jstr(&hex(&e)), jstr(&hex(&d))
+            "{{\"size\":{},\"no_unroll\":{},\"ctor\":\"{}\",\"route\":\"{}\",\"outcome\":\"{}\",\"crafted\":\"{}\",\"key\":{},\"t0\":{},\"t1\":{},\"block\":{},\"enc\":{},\"dec\":{}}}",
+            size, nu, CTORS[ctor as usize], ROUTES[route as usize], if ran.is_some() { "ok" } else { "panic" }, crafted, jstr(&hex(&key)), t0, t1, jstr(&hex(&block)), jstr(&hex(&e)), jstr(&hex(&d))
         );
         if (i >= 6 && samples.len() < 3) || i == count - 1 {
             samples.push(js.clone());
@@ -223,7 +315,7 @@ pub fn run(a: &Args) {
     let all: Vec<String> = cases.iter().map(|c| c.1.clone()).collect();
     std::fs::write(format!("{}/cases.json", out), format!("[{}]", all.join(",\n"))).unwrap();
     println!(
-        "{{\"evaluations\":{},\"distinct_nontrivial\":{},\"by_size\":{{\"256\":{},\"512\":{},\"1024\":{}}},\"no_unroll\":{},\"constructed_via_new\":{},\"blocks_crafted_for_edge_operands\":{},\"direct_failures\":[{}],\"samples\":[{}]}}",
+        "{{\"evaluations\":{},\"distinct_nontrivial\":{},\"by_size\":{{\"256\":{},\"512\":{},\"1024\":{}}},\"no_unroll\":{},\"constructed_via_new\":{},\"blocks_crafted_for_edge_operands\":{},\"keys_with_parity_word_next_to_2_64\":{},\"by_route\":{{\"block\":{},\"blocks_slice\":{},\"par_blocks\":{},\"clone\":{}}},\"blocks_through_one_object_per_case\":4,\"panics\":{},\"direct_failures\":[{}],\"samples\":[{}]}}",
         count,
         distinct.len(),
         by_size[0],
@@ -232,6 +324,12 @@ pub fn run(a: &Args) {
         nu,
         via_new,
         n_crafted,
+        n_parity,
+        by_route[0],
+        by_route[1],
+        by_route[2],
+        by_route[3],
+        panics,
         direct_fail.join(","),
         samples.join(",")
     );
